@@ -47,6 +47,37 @@ pub async fn reentrant_queries(prov: &Prov, cache: &SolverCache<Prov>, solvables
     let rf = Ref::new(&u);
     let mut obs = vec![];
     let mut n = 0u64;
+    // availability of EVERY solvable at this moment, judged against the provider's own log: true
+    // exactly for solvables whose dependencies the provider has returned or that a fetched
+    // package hints (a request that is merely pending is neither)
+    {
+        let (mut fetched, mut hinted): (BTreeSet<u32>, BTreeSet<u32>) = Default::default();
+        for e in prov.sched.log.borrow().iter() {
+            match e {
+                Ev::DepsRet(s) => {
+                    fetched.insert(*s);
+                }
+                Ev::CandRet(nm) => {
+                    let pk = &u.pkgs[*nm as usize];
+                    if let Some(c) = &pk.candidates {
+                        match &pk.hint {
+                            Hint::None => {}
+                            Hint::All => hinted.extend(c.iter().copied()),
+                            Hint::Some(v) => hinted.extend(v.iter().copied()),
+                        }
+                    }
+                }
+                _ => {}
+            }
+        }
+        for s in 0..u.solvs.len() as u32 {
+            n += 1;
+            let exp = fetched.contains(&s) || hinted.contains(&s);
+            if cache.are_dependencies_available_for(SolvableId(s)) != exp {
+                obs.push(format!("are_dependencies_available_for(s{s}) is {} but the solvable is {}", !exp, if exp { "hinted or fetched" } else { "neither hinted nor fetched" }));
+            }
+        }
+    }
     for &s in solvables.iter().take(3) {
         let name = u.solvs[s.0 as usize].name;
         // the package being sorted is already cached: must not hit the provider again
